@@ -6,7 +6,7 @@ ZOO = "legacy"
 
 
 def classify_line(ln, outcome, clause):
-    return legacy.finding_partial_attach(ln, outcome, clause)
+    return legacy.finding_partial_attach(ln, outcome, clause) or legacy.finding_transformer_partial(ln, outcome, clause)
 
 
 def run(chk):
